@@ -93,6 +93,76 @@ def fam_names():
                               'inclusion decided by z3 seq/re theory)'))
 
 
+HOSTILE = [
+    'CUSTOM_A"', 'CUSTOM_A\\', 'CUSTOM_x", "name": "CUSTOM_A',
+    'CUSTOM_x","name":"CUSTOM_B', 'CUSTOM_A\\u0041', 'CUSTOM_A\\n',
+    'CUSTOM_A\n', 'CUSTOM_A\r', 'CUSTOM_A\t', 'CUSTOM_A ', ' CUSTOM_A',
+    'CUSTOM_a', 'custom_A', 'CUSTOM_', 'CUSTOM', 'CUSTOM_A-B', 'CUSTOM_A.B',
+    'CUSTOM_A/B', 'CUSTOM_A%41', 'CUSTOM_\u00c4', 'CUSTOM_A\x00',
+    'CUSTOM_' + 'A' * 249, 'CUSTOM_' + 'A' * 248, 'CUSTOM_A"}', '{"name":1}',
+    'CUSTOM_A", "x": "y', 'VCPU", "name": "CUSTOM_A',
+]
+
+
+def fam_hostile_names():
+    """(a') the pattern is applied to whatever the handler hands to the
+    validator, which need not be the name it stores: a catalogue of hostile
+    names goes through every name-taking route and whatever is stored must be
+    in the language (finite catalogue, enumerated as decisions)"""
+    import re
+    LANG = re.compile(r'CUSTOM_[A-Z0-9_]{1,248}\Z')
+    routes = ['post_rc', 'put_rc', 'put_rc_1.6', 'put_trait', 'put_rp_traits']
+
+    def path(ctx):
+        app.setup()
+        name = HOSTILE[symex.choose(len(HOSTILE))]
+        kind = routes[symex.choose(len(routes))]
+        q = urllib.parse.quote(name, safe='')
+        with World(ctx) as w:
+            w.rc('VCPU')
+            w.rc('CUSTOM_OLD', 10000)
+            w.trait('HW_CPU_X86_AVX')
+            w.provider(1, generation=0)
+            if kind == 'post_rc':
+                r = app.call('POST', '/resource_classes', {'name': name})
+            elif kind == 'put_rc':
+                r = app.call('PUT', '/resource_classes/' + q)
+            elif kind == 'put_rc_1.6':
+                r = app.call('PUT', '/resource_classes/CUSTOM_OLD',
+                             {'name': name}, version='1.6')
+            elif kind == 'put_trait':
+                r = app.call('PUT', '/traits/' + q)
+            else:
+                r = app.call('PUT', '/resource_providers/%s/traits' % (
+                    '00000001-1111-1111-1111-111111111111'),
+                    {'resource_provider_generation': 0, 'traits': [name]})
+            post = w.dump()
+            ctx.data['obligations'] = ctx.data.get('obligations', 0) + 1
+            bad = []
+            for t in ('resource_classes', 'traits'):
+                for row in post[t]:
+                    n = row.vals['name']
+                    if row.present is True and n.startswith(('CUSTOM', 'custom', ' ')) \
+                            and not LANG.match(n):
+                        bad.append((t, n))
+                    if row.present is True and not n.startswith('CUSTOM') and \
+                            n not in ('VCPU', 'HW_CPU_X86_AVX'):
+                        bad.append((t, n))
+            if r.status >= 500:
+                runner.violation(ctx, 'no-5xx', '%s with %r: %d' % (
+                    kind, name, r.status), sig=kind)
+            if bad:
+                runner.violation(ctx, 'name-language',
+                                 '%s with %r (answered %d) stored %r' % (
+                                     kind, name, r.status, bad), sig=kind)
+            else:
+                ctx.data['discharged'] = ctx.data.get('discharged', 0) + 1
+            return finish(ctx, '%s:%d' % (kind, r.status))
+    return Family('names-hostile-catalogue', path, bounds=dict(
+        names=len(HOSTILE), routes=routes,
+        note='finite catalogue, plain enumeration'))
+
+
 def rc_world(ctx, ncustom=2):
     w = World(ctx)
     for rc in ('VCPU', 'MEMORY_MB', 'DISK_GB'):
@@ -305,7 +375,7 @@ def fam_sync():
 
 
 def families(tier):
-    return [fam_names(), fam_rc_create('POST'), fam_rc_create('PUT'),
+    return [fam_names(), fam_hostile_names(), fam_rc_create('POST'), fam_rc_create('PUT'),
             fam_std_immutable(), fam_sync()]
 
 
